@@ -137,6 +137,8 @@ class SchedModel:
         self._discover_pool()
         # --- dispatch kinds and in-flight sets
         self._discover_dispatches()
+        # --- the bound the guards compare the in-flight count with
+        self._discover_bound()
         # --- wait helpers
         self._discover_helpers()
         # --- activation predicate
@@ -329,6 +331,23 @@ class SchedModel:
                     if c is not None:
                         self.count_funcs[g.name] = c
 
+    def _discover_bound(self) -> None:
+        """The parameter the in-flight count is compared with (falls back to the pool's max_workers when it is a name)."""
+        params = {a.arg for a in self.fn.node.args.args + self.fn.node.args.kwonlyargs + self.fn.node.args.posonlyargs}  # type: ignore[attr-defined]
+        cands = []
+        for n in own_walk(self.loop_stmt):
+            if isinstance(n, ast.Compare) and len(n.ops) == 1:
+                for a, b in ((n.left, n.comparators[0]), (n.comparators[0], n.left)):
+                    if self.count_of(a) is not None and isinstance(b, ast.Name) and b.id in params:
+                        cands.append(b.id)
+        self.bound_name: Optional[str] = None
+        if cands:
+            if len(set(cands)) != 1:
+                raise Undecided(f"the in-flight count is compared with several parameters: {sorted(set(cands))}")
+            self.bound_name = cands[0]
+        elif isinstance(self.max_expr, ast.Name):
+            self.bound_name = self.max_expr.id
+
     def count_of(self, e: ast.AST, allow_funcs: bool = True) -> Optional[FrozenSet[str]]:
         """If e is a sum of len(<set name>) terms (or a call of a nested function returning one): the set names."""
         if isinstance(e, ast.BinOp) and isinstance(e.op, ast.Add):
@@ -418,7 +437,7 @@ class SchedModel:
             if cl is not None:
                 if isinstance(r, ast.Constant) and isinstance(r.value, int):
                     return self._cmp_zero(self._n_atom("ZERO", cl), op, r.value, ("?" + norm_src(e), True))
-                if self.max_expr is not None and norm_src(r) == norm_src(self.max_expr):
+                if self.bound_name is not None and dotted(r) == self.bound_name:
                     full = self._n_atom("FULL", cl)
                     if isinstance(op, (ast.Eq, ast.GtE)):
                         return (full, True)
@@ -426,7 +445,7 @@ class SchedModel:
                         return (full, False)
                     return ("?" + norm_src(e), True)
             cr = self.count_of(r)
-            if cr is not None and self.max_expr is not None and norm_src(l) == norm_src(self.max_expr):
+            if cr is not None and self.bound_name is not None and dotted(l) == self.bound_name:
                 full = self._n_atom("FULL", cr)
                 if isinstance(op, (ast.Eq, ast.LtE)):
                     return (full, True)
